@@ -76,13 +76,28 @@ Definition set_eqb (a b : list Z) : bool := subset a b && subset b a.
 (* one run of the real filter: concurrency, ids left in the map, DuplicateIDs() *)
 Definition run := (Z * list Z * list Z)%type.
 
+(* CDedup: one Filter call on fresh filter instances.  CHistory: successive Filter calls
+   (syncs) on the same long-lived instances: per sync the blocks present and the outcome
+   on each instance. *)
 Inductive case :=
-| CDedup (l : list blk) (runs : list run).
+| CDedup (l : list blk) (runs : list run)
+| CHistory (steps : list (list blk * list run)).
 
 (* kept ids and duplicate ids of the model, computed once per case
    (fst = map bid (kept l), snd = dups l) *)
 Definition model_view (l : list blk) : list Z * list Z :=
   let d := dups l in (map bid (filter (fun b => negb (mem (bid b) d)) l), d).
+
+(* the filter with its remembered result [prev] (the field duplicateIDs): a call overwrites
+   it and does not look at it; a history of syncs on one instance *)
+Definition filter_call (prev : list Z) (l : list blk) : (list Z * list Z) * list Z :=
+  (model_view l, dups l).
+
+Fixpoint run_history (prev : list Z) (ls : list (list blk)) : list (list Z * list Z) :=
+  match ls with
+  | [] => []
+  | l :: r => let '(res, st) := filter_call prev l in res :: run_history st r
+  end.
 
 Definition run_matches (mv : list Z * list Z) (r : run) : bool :=
   let '(_, k, d) := r in
@@ -91,6 +106,10 @@ Definition run_matches (mv : list Z * list Z) (r : run) : bool :=
 Definition corr_ok (c : case) : bool :=
   match c with
   | CDedup l runs => let mv := model_view l in forallb (run_matches mv) runs
+  | CHistory steps =>
+      let mvs := run_history [] (map fst steps) in
+      (length mvs =? length steps)%nat
+      && forallb (fun p => forallb (run_matches (fst p)) (snd (snd p))) (combine mvs steps)
   end.
 
 Definition find_blk (l : list blk) (i : Z) : option blk := find (fun b => bid b =? i) l.
@@ -123,4 +142,7 @@ Definition runs_agree (runs : list run) : bool :=
 Definition pred_ok (c : case) : bool :=
   match c with
   | CDedup l runs => match runs with [] => true | r :: _ => run_pred l r end && runs_agree runs
+  | CHistory steps =>
+      (* every clause after every sync *)
+      forallb (fun st => match snd st with [] => true | r :: _ => run_pred (fst st) r end && runs_agree (snd st)) steps
   end.
